@@ -13,13 +13,13 @@ Proof. reflexivity. Qed.
 Lemma fault_class_qname t das : c_qname (fault_class t das) = (t, m_fault).
 Proof. destruct das; reflexivity. Qed.
 
-Lemma decode_env_closed te all t nm o body :
+Lemma decode_env_closed te all t nm hmn o body :
   c_qname body = (t, m_body) ->
-  decode_root te all (env_closed (t, nm) (Some m_envelope) (Some m_soap_env) o body)
+  decode_root te all (env_closed (t, nm) (Some m_envelope) (Some m_soap_env) hmn o body)
   = Node SOAP_ENV s_Envelope true
       ((match o with
         | None => []
-        | Some h => [Node SOAP_ENV s_Header true
+        | Some h => [Node SOAP_ENV s_Header (req_of hmn)
                           (map (decode_attr (decode_class 6 te all) te all (inner0 t s_Header_title h []) SOAP_ENV) h)]
         end) ++ [Node SOAP_ENV s_Body true (decode_class 7 te all body SOAP_ENV)]).
 Proof.
@@ -85,7 +85,6 @@ Section Main.
   Lemma side_correct po name style suffix operation wrapper is_output bm ptm :
     b_msg_ok d style bm ptm = true ->
     header_first bm = true ->
-    (is_output = true -> has_header bm = false) ->
     (is_output = true -> forallb (fault_wf d) (pto_faults po) = true) ->
     (str_eqb style s_rpc = false -> forallb element_part (selected_of d bm ptm) = true) ->
     (str_eqb style s_rpc = true ->
@@ -101,7 +100,7 @@ Section Main.
                                /\ exists dm, find_message_by_name d (msg_name dm) = Some dm /\ c = msg_class t dm)
       /\ forall all, inv d t all -> incl ms all -> decode_root te all target = item.
   Proof.
-    intros Hok Hhf Hnoh Hfw Hdoc Hrpc.
+    intros Hok Hhf Hfw Hdoc Hrpc.
     destruct (b_msg_ok_facts _ _ _ Hok) as [use [bodyns [parts [dm [Hbody [Hfm [Hrpcwf [Hpw Hhw]]]]]]]].
     destruct (exts_shape bm use bodyns parts Hbody Hhf) as [hs [Eexts Hhs]].
     destruct (find_message_facts d t Ht Htn _ _ _ Hfm) as [Hind [Hsuf [Hbn [Hloc [prefix [Esplit Ens]]]]]].
@@ -116,7 +115,7 @@ Section Main.
     assert (Henv : forall ab,
       ext_attrs d style operation ptm bm (SoapBody use bodyns parts) = Some ab ->
       build_envelope_class d bm (Some ptm) nm style (Some m_soap_env) operation
-      = Some (env_closed (t, nm) (Some m_envelope) (Some m_soap_env)
+      = Some (env_closed (t, nm) (Some m_envelope) (Some m_soap_env) None
                 (match hs with [] => None | _ => Some (build_parts_attributes (flat_map (hdr_parts d bm) hs)) end)
                 (inner0 t m_body ab []))).
     { intros ab Hab. unfold build_envelope_class. rewrite Ht. unfold build_qname. rewrite Eexts.
@@ -164,24 +163,28 @@ Section Main.
       rewrite Hsel in Hty. cbn [select_parts] in Hty.
       destruct is_output eqn:Eo.
       + (* output *)
-        pose proof (Hnoh eq_refl) as Hnh. rewrite Hhas in Hnh. destruct hs as [|h0 hr]; [|discriminate].
         destruct (detail_attrs_closed d t Ht Htn Hmsgs Hsh _ (Hfw eq_refl)) as [Ed _].
-        rewrite (envelope_fault_closed d po t nm _ _ None _ _ Ed).
+        rewrite (envelope_fault_closed d po t nm _ _ _ _ _ Ed).
         eexists [msg_class t dm], _, _. split; [reflexivity|]. split; [reflexivity|].
-        split; [reflexivity|]. split; [reflexivity|]. split; [reflexivity|]. split.
+        split; [destruct hs; reflexivity|]. split; [destruct hs; reflexivity|]. split; [destruct hs; reflexivity|]. split.
         { intros c [<-|[]]. split; [reflexivity|]. exists dm. auto. }
         intros all Hinv Hincl.
-        rewrite decode_env_closed by reflexivity. rewrite Hhas. cbn [app negb select_parts].
-        f_equal. f_equal. f_equal.
-        rewrite decode_class_S. replace (children_ns _ SOAP_ENV) with SOAP_ENV by reflexivity.
-        unfold body_out. cbn [c_attrs]. rewrite map_app, !map_app. cbn [map].
-        change (set_min0 (wrapper_attr t wrapper (Some u) (msg_name dm) None)) with (wrapper_attr t wrapper (Some u) (msg_name dm) (Some O)).
-        rewrite set_min0_fwd.
-        rewrite (decode_wrapper te d t Ht Htn Hmsgs Hsh all 5 _ SOAP_ENV wrapper u dm (Some O) Hinv Hbn
-                   (Hincl _ (or_introl eq_refl)) Hind Hu Hty).
-        erewrite decode_fwd. 2:{ cbn [c_inner find]. rewrite fault_class_qname, qn_eqb_refl. reflexivity. }
-        destruct (Hfault eq_refl all Hinv) as [das' [Ed' Edec]]. rewrite Ed in Ed'. inversion Ed'; subst das'.
-        rewrite Edec. reflexivity.
+        rewrite decode_env_closed by reflexivity. rewrite Hhas. cbn [negb select_parts req_of].
+        match goal with |- context [decode_class 7 te all ?b SOAP_ENV] =>
+          assert (Hb : decode_class 7 te all b SOAP_ENV
+                       = [Node u wrapper false (flat_map (fun p => olist (rpc_part_item te p)) (msg_parts dm))]
+                         ++ [fault_item (fault_details te d (pto_faults po))]) end.
+        { rewrite decode_class_S. replace (children_ns _ SOAP_ENV) with SOAP_ENV by reflexivity.
+          unfold body_out. cbn [c_attrs]. rewrite !map_app. cbn [map].
+          change (set_min0 (wrapper_attr t wrapper (Some u) (msg_name dm) None)) with (wrapper_attr t wrapper (Some u) (msg_name dm) (Some O)).
+          rewrite set_min0_fwd.
+          rewrite (decode_wrapper te d t Ht Htn Hmsgs Hsh all 5 _ SOAP_ENV wrapper u dm (Some O) Hinv Hbn
+                     (Hincl _ (or_introl eq_refl)) Hind Hu Hty).
+          erewrite decode_fwd. 2:{ cbn [c_inner find]. rewrite fault_class_qname, qn_eqb_refl. reflexivity. }
+          destruct (Hfault eq_refl all Hinv) as [das' [Ed' Edec]]. rewrite Ed in Ed'. inversion Ed'; subst das'.
+          rewrite Edec. reflexivity. }
+        rewrite Hb. destruct hs as [|h0 hr]; [reflexivity|].
+        rewrite (Hhdr all Hinv). reflexivity.
       + (* input *)
         eexists [msg_class t dm], _, _. split; [reflexivity|]. split; [reflexivity|].
         split; [destruct hs; reflexivity|]. split; [destruct hs; reflexivity|]. split; [destruct hs; reflexivity|]. split.
@@ -205,21 +208,25 @@ Section Main.
       assert (Hselc : Forall (part_clean d) (select_parts dm parts)).
       { unfold select_parts. destruct parts; [apply Forall_filter|]; apply (parts_clean d Hmsgs Hsh); exact Hind. }
       destruct is_output eqn:Eo.
-      + pose proof (Hnoh eq_refl) as Hnh. rewrite Hhas in Hnh. destruct hs as [|h0 hr]; [|discriminate].
-        destruct (detail_attrs_closed d t Ht Htn Hmsgs Hsh _ (Hfw eq_refl)) as [Ed _].
-        rewrite (envelope_fault_closed d po t nm _ _ None _ _ Ed).
+      + destruct (detail_attrs_closed d t Ht Htn Hmsgs Hsh _ (Hfw eq_refl)) as [Ed _].
+        rewrite (envelope_fault_closed d po t nm _ _ _ _ _ Ed).
         eexists [], _, _. split; [reflexivity|]. split; [reflexivity|].
-        split; [reflexivity|]. split; [reflexivity|]. split; [reflexivity|]. split.
+        split; [destruct hs; reflexivity|]. split; [destruct hs; reflexivity|]. split; [destruct hs; reflexivity|]. split.
         { intros c []. }
         intros all Hinv Hincl.
-        rewrite decode_env_closed by reflexivity. rewrite Hhas. cbn [app negb].
-        f_equal. f_equal. f_equal.
-        rewrite decode_class_S. replace (children_ns _ SOAP_ENV) with SOAP_ENV by reflexivity.
-        unfold body_out. cbn [c_attrs]. rewrite !map_app. cbn [map]. rewrite set_min0_fwd.
-        rewrite (element_parts_items te d t all Ht Hinv _ _ SOAP_ENV set_min0 (Some O)); auto.
-        erewrite decode_fwd. 2:{ cbn [c_inner find]. rewrite fault_class_qname, qn_eqb_refl. reflexivity. }
-        destruct (Hfault eq_refl all Hinv) as [das' [Ed' Edec]]. rewrite Ed in Ed'. inversion Ed'; subst das'.
-        rewrite Edec. reflexivity.
+        rewrite decode_env_closed by reflexivity. rewrite Hhas. cbn [negb req_of].
+        match goal with |- context [decode_class 7 te all ?b SOAP_ENV] =>
+          assert (Hb : decode_class 7 te all b SOAP_ENV
+                       = flat_map (fun p => olist (direct_part_item te false p)) (select_parts dm parts)
+                         ++ [fault_item (fault_details te d (pto_faults po))]) end.
+        { rewrite decode_class_S. replace (children_ns _ SOAP_ENV) with SOAP_ENV by reflexivity.
+          unfold body_out. cbn [c_attrs]. rewrite !map_app. cbn [map]. rewrite set_min0_fwd.
+          rewrite (element_parts_items te d t all Ht Hinv _ _ SOAP_ENV set_min0 (Some O)); auto.
+          erewrite decode_fwd. 2:{ cbn [c_inner find]. rewrite fault_class_qname, qn_eqb_refl. reflexivity. }
+          destruct (Hfault eq_refl all Hinv) as [das' [Ed' Edec]]. rewrite Ed in Ed'. inversion Ed'; subst das'.
+          rewrite Edec. reflexivity. }
+        rewrite Hb. destruct hs as [|h0 hr]; [reflexivity|].
+        rewrite (Hhdr all Hinv). reflexivity.
       + eexists [], _, _. split; [reflexivity|]. split; [reflexivity|].
         split; [destruct hs; reflexivity|]. split; [destruct hs; reflexivity|]. split; [destruct hs; reflexivity|]. split.
         { intros c []. }
